@@ -36,6 +36,11 @@ type tagFilter struct {
 	value []byte
 	name  []byte
 
+	// origValue is the value Init was given: the plain value, or the source of the regexp.
+	// value is rewritten by Init for literal regexps (unescaped literal), so the expression
+	// must be taken from here.
+	origValue []byte
+
 	// Additionally it contains:
 	//  - value if !isRegexp.
 	//  - non-regexp prefix if isRegexp.
@@ -167,7 +172,8 @@ func (tf *tagFilter) String() string {
 func (tf *tagFilter) Marshal(dst []byte) []byte {
 	dst = marshalTagValue(dst, tf.name)
 	dst = marshalTagValue(dst, tf.key)
-	dst = marshalTagValue(dst, tf.value)
+	// not tf.value: /\.\*/ and /.*/ end up with the same tf.value but select different series
+	dst = marshalTagValue(dst, tf.origValue)
 
 	isNegative := byte(0)
 	if tf.isNegative {
@@ -221,6 +227,7 @@ func (tf *tagFilter) Less(other *tagFilter) bool {
 func (tf *tagFilter) Init(name, key, value []byte, isNegative, isRegexp bool) error {
 	tf.key = append(tf.key[:0], key...)
 	tf.value = append(tf.value[:0], value...)
+	tf.origValue = append(tf.origValue[:0], value...)
 	tf.name = append(tf.name[:0], name...)
 	tf.isNegative = isNegative
 	tf.isRegexp = isRegexp
